@@ -78,9 +78,9 @@ def concrete_field_kinds(ctx):
         subs = prog.subclasses(r.node)
         dispatches = False
         if new is not None:
-            for n in ast.walk(new):
-                if isinstance(n, ast.Assign) and any(isinstance(t, ast.Name) and t.id == "cls" for t in n.targets):
-                    dispatches = True
+            clsparam = (func_params(new) or ["cls"])[0]
+            # the class to instantiate is re-bound (in any form of assignment): the base class itself is never the kind of a value
+            dispatches = any(isinstance(n, ast.Name) and n.id == clsparam and isinstance(n.ctx, ast.Store) for n in ast.walk(new))
         if dispatches and subs:
             for s in subs:
                 kinds.setdefault(qualname_of(s), DefRef(qualname_of(s), s))
